@@ -497,5 +497,37 @@ def r08_14(ctx):
         ctx.ok(construct, init.loc(stores[0]), stores=len(stores))
 
 
+def r08_15(ctx):
+    """R08.15 a value forced by `set` is not a user value: has_active_default_value() - which decides the `# default:` marker - is true
+    for an option with an active `set` whether or not it also carries a user value (as a boolean function of its tests: with
+    `_has_active_indirect_set` true, a type and no choice, the answer does not depend on `_user_value is None`). Otherwise the forced
+    value is written unmarked, read back as a user value and survives the `set` being switched off."""
+    from .common import AcceptCondition
+    repo = ctx.repo
+    f = repo.func(f"{CORE}:Symbol.has_active_default_value")
+    ctx.analysed(f.qual)
+    ac = AcceptCondition(f.node)
+    construct = "Symbol.has_active_default_value/an active `set` makes the value a default whatever the user value"
+    uv = [a for a in ac.atoms if a.replace(" ", "") in ("self._user_valueisNone",)]
+    flag = [a for a in ac.atoms if a == "self._has_active_indirect_set"]
+    if not uv or not flag:
+        ctx.bad(construct, f"the predicate no longer reads {'_user_value is None' if not uv else '_has_active_indirect_set'} (atoms: {ac.atoms}): a value forced by `set` on an "
+                "option that also has a user value is written without the marker", f.loc())
+        return
+    import itertools
+    free = [a for a in ac.atoms if a not in uv + flag]
+    for vals in itertools.product((True, False), repeat=len(free)):
+        v = dict(zip(free, vals))
+        v[flag[0]] = True
+        try:
+            a1, a2 = ac.accept({**v, uv[0]: True}), ac.accept({**v, uv[0]: False})
+        except KeyError:
+            continue
+        if bool(a1) != bool(a2):
+            ctx.bad(construct, f"with an active `set` (and {v}) the answer still depends on `{uv[0]}`", f.loc())
+            return
+    ctx.ok(construct, f.loc(), atoms=len(ac.atoms))
+
+
 def rules():
-    return [("R08.14", r08_14, 1), ("R08.13", r08_13, 4), ("R08.12", r08_12, 1), ("R08.11", r08_11, 3), ("R08.10", r08_10, 3), ("R08.9", r08_9, 5), ("R08.1", r08_1, 2), ("R08.2", r08_2, 2), ("R08.3", r08_3, 8), ("R08.5", r08_5, 3), ("R08.6", r08_6, 8), ("R08.7", r08_7, 6), ("R08.8", r08_8, 1)]
+    return [("R08.15", r08_15, 1), ("R08.14", r08_14, 1), ("R08.13", r08_13, 4), ("R08.12", r08_12, 1), ("R08.11", r08_11, 3), ("R08.10", r08_10, 3), ("R08.9", r08_9, 5), ("R08.1", r08_1, 2), ("R08.2", r08_2, 2), ("R08.3", r08_3, 8), ("R08.5", r08_5, 3), ("R08.6", r08_6, 8), ("R08.7", r08_7, 6), ("R08.8", r08_8, 1)]
